@@ -403,9 +403,61 @@ func ruleR9_1(w *World, r *Report) {
 }
 
 // R9.2: in AppendClause the variable of each literal is announced (grower called) before the literal is used.
+// appendClauseScanFn: the function that holds AppendClause's scan over the literals of the new constraint: AppendClause
+// itself, or the one helper it hands the constraint to (`minW, maxW := s.removeBoundLits(clause)`). via is the call.
+func appendClauseScanFn(w *World) (scan *ssa.Function, via *ssa.Call) {
+	fn := w.Func("solver", "Solver.AppendClause")
+	if fn == nil {
+		return nil, nil
+	}
+	hasScan := func(f *ssa.Function) bool {
+		for _, ci := range callsIn(f) {
+			if c, ok := ci.(*ssa.Call); ok && typeShort(c.Type()) == "solver.Status" && inLoop(f, c.Block()) {
+				return true
+			}
+		}
+		return false
+	}
+	if hasScan(fn) {
+		return fn, nil
+	}
+	if len(fn.Params) < 2 {
+		return fn, nil
+	}
+	clause := fn.Params[1]
+	var found *ssa.Function
+	var at *ssa.Call
+	for _, ci := range callsIn(fn) {
+		c, ok := ci.(*ssa.Call)
+		if !ok {
+			continue
+		}
+		g := c.Call.StaticCallee()
+		if g == nil || len(g.Blocks) == 0 || w.PkgName(g) != "solver" {
+			continue
+		}
+		passes := false
+		for _, a := range c.Call.Args {
+			if a == ssa.Value(clause) {
+				passes = true
+			}
+		}
+		if passes && hasScan(g) {
+			if found != nil {
+				return fn, nil
+			}
+			found, at = g, c
+		}
+	}
+	if found != nil {
+		return found, at
+	}
+	return fn, nil
+}
+
 func ruleR9_2(w *World, r *Report) {
 	r.Rule("R9.2", "in Solver.AppendClause the call announcing a literal's variable dominates every other use of that literal", 1)
-	fn := w.Func("solver", "Solver.AppendClause")
+	fn, _ := appendClauseScanFn(w)
 	if fn == nil {
 		r.Unk("R9.2", "solver.(*Solver).AppendClause", "-", "function not found")
 		return
@@ -574,6 +626,7 @@ func ruleR9_4(w *World, r *Report) {
 	unsat, _ := w.statusConst("Unsat")
 	// accumulators: header phis A (lower bound: `A >= card`) and B (upper bound: `B < card`)
 	var A, B *ssa.Phi
+	var scanFn *ssa.Function
 	allInstrs(fn, func(ins ssa.Instruction) {
 		bo, ok := ins.(*ssa.BinOp)
 		if !ok {
@@ -585,12 +638,43 @@ func ruleR9_4(w *World, r *Report) {
 				used = true
 			}
 		}
-		p, isPhi := bo.X.(*ssa.Phi)
-		if !used || !isPhi {
+		if !used {
 			return
 		}
 		if _, isCall := bo.Y.(*ssa.Call); !isCall {
 			return
+		}
+		// the bound: a header phi of the scan loop, or the result of the helper that holds the scan
+		p, isPhi := bo.X.(*ssa.Phi)
+		if !isPhi {
+			ex, isEx := bo.X.(*ssa.Extract)
+			if !isEx {
+				return
+			}
+			hc, isCall := ex.Tuple.(*ssa.Call)
+			if !isCall {
+				return
+			}
+			g := hc.Call.StaticCallee()
+			if g == nil || len(g.Blocks) == 0 {
+				return
+			}
+			var rv ssa.Value
+			nret := 0
+			for _, b := range g.Blocks {
+				if ret, ok := b.Instrs[len(b.Instrs)-1].(*ssa.Return); ok && ex.Index < len(ret.Results) {
+					rv = ret.Results[ex.Index]
+					nret++
+				}
+			}
+			if nret != 1 {
+				return
+			}
+			p, isPhi = rv.(*ssa.Phi)
+			if !isPhi {
+				return
+			}
+			scanFn = g
 		}
 		switch bo.Op {
 		case token.GEQ:
@@ -599,6 +683,9 @@ func ruleR9_4(w *World, r *Report) {
 			B = p
 		}
 	})
+	if A != nil && scanFn != nil {
+		fn = scanFn
+	}
 	if A == nil || B == nil || A.Block() != B.Block() {
 		r.Unk("R9.4", "(*solver.Solver).AppendClause bounds", w.Pos(fn.Pos()), "cannot identify the lower/upper weight bounds compared with the degree")
 		return
